@@ -835,8 +835,8 @@ def nillable_sequence_lists(r, m):
     hit = False
     for c in m["classes"]:
         for f in c["fields"]:
-            if f["kind"] == "Element" and f.get("sequence") is not None and f.get("list") and not f.get("tokens") \
-                    and not f.get("wrapper") and not f.get("nillable") and r.random() < 0.4:
+            if f["kind"] == "Element" and f.get("list") and not f.get("tokens") and not f.get("wrapper") and not f.get("nillable") \
+                    and r.random() < (0.5 if f.get("sequence") is not None else 0.1):   # (some plain lists outside groups too)
                 f["nillable"] = True
                 hit = True
     return hit
@@ -1115,9 +1115,20 @@ def classify(m, inst, case, res, vres):
 
 
 def nillable_union_nones(m, inst):
-    """local element names of the nillable element fields of a union-of-classes type that hold None (scalar) or a None
-    item (list) somewhere in the instance: written <u xsi:nil="true"/>, which UnionNode.bind cannot read (finding C01-F10)"""
+    """local element names of the nillable element fields of a union-of-classes type that hold None (scalar), a None
+    item (list) or an instance without content somewhere in the instance: written <u ... xsi:nil="true"/>, which
+    UnionNode.bind cannot read (finding C01-F10)"""
     names = set()
+
+    def contentless(y):
+        # an instance without element / text content in a nillable field is written with xsi:nil="true" as well (C01-F1)
+        if not (isinstance(y, dict) and "__cls__" in y):
+            return False
+        try:
+            fs = G.all_fields(m, G.find_class(m, y["__cls__"]))
+        except Exception:  # noqa
+            return False
+        return all(y["fields"].get(f["name"]) in (None, []) for f in fs if f["kind"] not in ("Attribute", "Attributes"))
 
     def walk(x):
         if isinstance(x, list):
@@ -1132,7 +1143,7 @@ def nillable_union_nones(m, inst):
                 v = x["fields"].get(f["name"])
                 tp = f.get("type")
                 if f["kind"] == "Element" and f.get("nillable") and tp and tp[0] == "union" \
-                        and (v is None or (isinstance(v, list) and any(y is None for y in v))):
+                        and any(y is None or contentless(y) for y in (v if isinstance(v, list) else [v])):
                     names.add(f.get("xml_name") or f["name"])
                 walk(v)
     walk(inst)
@@ -1226,8 +1237,7 @@ def run(ck: Check):
             r3 = random.Random(f"round5-{ck.seed}-{k}")   # own stream again
             if r3.random() < 0.3 and add_overlapping_choices(r3, m, insts):
                 stats["models_with_overlapping_primitive_choices"] = stats.get("models_with_overlapping_primitive_choices", 0) + 1
-            if r3.random() < 0.5:
-                nillable_sequence_lists(r3, m)
+            nillable_sequence_lists(r3, m)
             nn = sum(nil_list_items(r3, m, inst) for inst in insts)
             if nn:
                 stats["models_with_none_items_in_nillable_lists"] = stats.get("models_with_none_items_in_nillable_lists", 0) + 1
